@@ -98,7 +98,10 @@ def main():
         "checks": checks,
         "not_applicable": na,
         "notes": "All checks are static (family: static analysis). Exit 0/1/2 = holds / VIOLATION / ANALYSIS-ERROR. Known "
-                 "genuine defects are in known_findings.json; fixes to twisted are 'fix:' commits in /repo.",
+                 "genuine defects are in known_findings.json and known_findings.d/<property>.json (committed; never written at run "
+                 "time; 'fixed' entries suppress nothing); repairs of twisted are the 43 'fix:' commits in /repo on top of e2d0e7a. "
+                 "Independently seeded breaking changes are under seeded/, behaviour-preserving refactorings under refactors/ "
+                 "(tools/seeds.py sweep seeded|refactors re-checks them on private scratch copies of /repo/src).",
     }
     with open(os.path.join(VERIF, "MANIFEST.json"), "w") as f:
         json.dump(man, f, indent=1)
